@@ -9,7 +9,7 @@ from vlib.runner import drive
 PROP = "C03"
 LEVEL = "exploration"
 WORKERS = {"quick": 4, "thorough": 16}
-BUDGET = {"quick": 80, "thorough": 800}
+BUDGET = {"quick": 120, "thorough": 800}
 TECHNIQUE = "model-based history generation (Hypothesis op lists + bounded-exhaustive short sequences) against an in-memory dict model, invariants through a fresh Project after every step"
 LEVEL_TEXT = (
     "Histories of public operations over 1-2 projects and several handle kinds are generated, applied to real signac "
